@@ -450,6 +450,29 @@ func (e *SpecEnv) evalCall(x *ast.CallExpr) Val {
 	case "govcTypeTag":
 		tt := info.Types[typeArgs[0]].Type
 		return Val{T: types.Typ[types.Int], L: []string{bvLit(64, uint64(vc.w.tags.tag(tt)))}}
+	case "govcRvmt", "govcRvfld", "govcRvobj", "govcRvcls", "govcRvttag", "govcRvwid", "govcRvecls", "govcRvewid":
+		v := e.eval(x.Args[0])
+		k := map[string]int{"govcRvmt": iMt, "govcRvfld": iFld, "govcRvobj": iObj, "govcRvcls": iCls, "govcRvttag": iTTag, "govcRvwid": iWid, "govcRvecls": iECls, "govcRvewid": iEWid}[name]
+		return Val{T: types.Typ[types.Int], L: []string{v.L[k]}}
+	case "govcRvvalid":
+		v := e.eval(x.Args[0])
+		return Val{T: types.Typ[types.Bool], L: []string{not(eq(v.L[iMt], bvLit(64, rvInvalid)))}}
+	case "govcRvismsg":
+		// v views a whole, settable message struct of message number m
+		v := e.eval(x.Args[0])
+		m := e.eval(x.Args[1])
+		return Val{T: types.Typ[types.Bool], L: []string{and(eq(v.L[iMt], m.L[0]), eq(v.L[iFld], allOnes64), eq(v.L[iIdx], allOnes64), eq(v.L[iCls], bvLit(64, clsStruct)), not(eq(v.L[iObj], bvLit(64, 0))))}}
+	case "govcTsec", "govcTns", "govcTzoff", "govcTzid":
+		v := e.eval(x.Args[0])
+		k := map[string]int{"govcTsec": 0, "govcTns": 1, "govcTzoff": 2, "govcTzid": 3}[name]
+		return Val{T: types.Typ[types.Int], L: []string{v.L[k]}}
+	case "govcIsLE", "govcIsBE":
+		v := e.eval(x.Args[0])
+		n := "encoding/binary.littleEndian"
+		if name == "govcIsBE" {
+			n = "encoding/binary.bigEndian"
+		}
+		return Val{T: types.Typ[types.Bool], L: []string{eq(v.L[0], bvLit(64, uint64(vc.w.tags.tagNamed(n))))}}
 	case "govcIsEOF":
 		v := e.eval(x.Args[0])
 		return Val{T: types.Typ[types.Bool], L: []string{vc.errIs(v, vc.externErrVar("io.EOF"))}}
@@ -658,11 +681,45 @@ func (vc *VC) ensurePureDef(sp *SpecFn) string {
 	// declare first (so recursive references resolve), translate, then define
 	saved := vc.script
 	vc.script = nil
-	body := ne.eval(sp.Decl.Body.List[0].(*ast.ReturnStmt).Results[0])
-	inner := vc.script
-	vc.script = saved
+	savedLog := vc.readLog
+	vc.readLog = map[string]bool{}
+	savedInline := vc.inlineMode
+	vc.inlineMode = true
+	var body Val
+	var inner []string
+	func() {
+		defer func() {
+			inner = vc.script
+			vc.script = saved
+			vc.inlineMode = savedInline
+			vc.pureReads = nil
+			for r := range vc.readLog {
+				vc.pureReads = append(vc.pureReads, r)
+			}
+			vc.readLog = savedLog
+		}()
+		body = ne.eval(sp.Decl.Body.List[0].(*ast.ReturnStmt).Results[0])
+	}()
 	if len(inner) > 0 {
 		panic(specErr{"pure spec function " + sp.Raw.Name + " needs side definitions (not pure)"})
+	}
+	mut := vc.w.mutatedTypes()
+	for hn := range pst.heap.m {
+		_ = hn
+	}
+	for _, hn := range vc.pureReads {
+		if strings.HasPrefix(hn, "H!") {
+			tk := strings.SplitN(strings.TrimPrefix(hn, "H!"), "!", 2)[0]
+			if why, bad := mut[tk]; bad {
+				panic(specErr{"pure spec function " + sp.Raw.Name + " reads heap " + hn + " of a type mutated in " + why})
+			}
+		} else if !strings.HasPrefix(hn, "A!") || true {
+			if strings.HasPrefix(hn, "A!") || strings.HasPrefix(hn, "G!") || strings.HasPrefix(hn, "Z!") || strings.HasPrefix(hn, "M!") {
+				if _, isFormal := pst.heap.m[hn]; !isFormal {
+					panic(specErr{"pure spec function " + sp.Raw.Name + " reads mutable state " + hn})
+				}
+			}
+		}
 	}
 	var sorts []string
 	var names []string
